@@ -211,10 +211,11 @@ def build_groups(rng, tier):
         L = gen.shape_size(trailing)
         flat = [rd(rng.uniform(-3, 3)) for _ in range(n * L)]
         flat[(n - 1) * L:] = flat[:L]
-        nq = 12
+        nq = rng.choice([12, 12, 40])          # long batches too (a fast path that works in blocks of 32 queries: seed C19-r8m1)
         qs = [rd(rng.uniform(lo, hi)) for _ in range(nq)]
-        if rng.random() < 0.3:
+        if rng.random() < 0.5:
             qs[rng.randrange(nq)] = rd(xs[-1] + (xs[-1] - xs[0]) * 0.375)
+            qs[rng.randrange(nq)] = rd(xs[0] - (xs[-1] - xs[0]) * 2.25)
         strat = ("spl", True, "per")
         mk = lambda e, dt="sta": i1_line(S, xs, [n] + trailing, flat, strat, e, dtag=dt)
         base = len(cases)
